@@ -176,9 +176,14 @@ def snapshot(compiler, wb):
     return out
 
 
-def write_xlsx_with_results(wb, results, path):
+ERROR_VALUES = ('#NULL!', '#DIV/0!', '#VALUE!', '#REF!', '#NAME?', '#NUM!', '#N/A')
+
+
+def write_xlsx_with_results(wb, results, path, error_type=False):
     """Save wb as .xlsx and inject the stored results of the formula cells
-    (openpyxl cannot write cached values: patch <v/> in the sheet XML)."""
+    (openpyxl cannot write cached values: patch <v/> in the sheet XML).
+    error_type=True: an error value is stored the way Excel stores it (<c t="e"><v>#DIV/0!</v>), otherwise as
+    a formula string result (t="str") like any other text."""
     owb = wb.to_openpyxl()
     owb.save(path)
     tmp = path + '.tmp'
@@ -196,6 +201,8 @@ def write_xlsx_with_results(wb, results, path):
                         typ, body = 'b', '1' if v else '0'
                     elif isinstance(v, (int, float)):
                         typ, body = None, repr(v)
+                    elif error_type and v in ERROR_VALUES:
+                        typ, body = 'e', v
                     else:
                         typ, body = 'str', (str(v).replace('&', '&amp;').replace('<', '&lt;')
                                             .replace('>', '&gt;'))
